@@ -27,6 +27,8 @@ def obligations(tier):
                       funcs=(F + "InstrumentTrack.from_chart_lines", F + "NoteEvent.from_parsed_data",
                              F + "NoteEvent._compute_star_power_data", "chartparse.track.build_events_from_data"),
                       bounds=f"{n} notes x {p} phrases, real cursor chain through from_chart_lines (token lines)"))
+    obs.append(Ob("C05.framing", "CH", "harness.h_chart", "framing", 300, funcs=("chartparse.chart.Chart._partition_lines_by_data_section",),
+                  bounds="3 sections x <=2 symbolic body lines of any length (blank lines included): this section's parser receives exactly its own body lines"))
     return obs
 
 
